@@ -257,11 +257,35 @@ fn sorted_invariants(v: &[usize]) -> Vec<u64> {
     nz
 }
 
-/// Number of conjugacy classes of subgroups of index <= k (repository
-/// instruments fundamental_group + coset_tables; trusted base C09/C12).
+thread_local! {
+    /// how often the repository's coset_tables disagreed with the harness's own
+    /// low-index count on the same presentation (reported, never an alarm)
+    static COSET_DISAGREEMENTS: std::cell::Cell<u64> = const { std::cell::Cell::new(0) };
+}
+
+pub fn take_coset_disagreements() -> u64 {
+    COSET_DISAGREEMENTS.with(|c| c.replace(0))
+}
+
+/// Number of conjugacy classes of subgroups of index <= k of the orbifold
+/// fundamental group. The presentation comes from the repository's
+/// `fundamental_group` (trusted base C09, cross-checked through H1); the
+/// count is the harness's own (lowindex.rs). The repository's `coset_tables`
+/// is only consulted as a cross-check and as a fallback when the own
+/// enumeration exceeds its node budget.
 fn class_count(ds: &PartialDSym, k: usize, cap: usize) -> usize {
     let fg = fundamental_group(ds);
-    coset_tables(fg.nr_generators(), &fg.relators, k).take(cap).count()
+    let rels: Vec<Vec<isize>> = fg.relators.iter().map(|w| w.iter().cloned().collect()).collect();
+    let repo = coset_tables(fg.nr_generators(), &fg.relators, k).take(cap).count();
+    match crate::lowindex::class_count_upto(fg.nr_generators(), &rels, k.min(4), 30_000_000) {
+        Some(own) if k <= 4 => {
+            if own.min(cap) != repo {
+                COSET_DISAGREEMENTS.with(|c| c.set(c.get() + 1));
+            }
+            own.min(cap)
+        }
+        _ => repo,
+    }
 }
 
 /// The space-group invariant table, read from the repository's data file
@@ -431,6 +455,10 @@ impl Executor {
         self.ptc_cache[&key].clone()
     }
 
+    pub fn show_input(&mut self, spec: &Spec) -> Result<String, String> {
+        Ok(self.build_input(&spec.base, &spec.xf)?.to_text())
+    }
+
     pub fn run(&mut self, spec: &Spec) -> Record {
         self.trim();
         let t0 = std::time::Instant::now();
@@ -453,6 +481,10 @@ impl Executor {
                 rec.excluded_reason = "builder_or_instrument_panic".into();
                 rec.failures.clear();
             }
+        }
+        let dis = take_coset_disagreements();
+        if dis > 0 {
+            rec.notes.push("instrument_disagreement:repository coset_tables vs own low-index count".into());
         }
         rec.micros = t0.elapsed().as_micros() as u64;
         rec
